@@ -8,7 +8,12 @@ the retention rule, temporary blocks, finalized marker) answers as a function of
 configured to 2-3 blocks so that it slides, runs empty and is refilled inside short scripts."""
 from props import c03
 
-C05_KEYS = ("state-mismatch:finalized", "delete-not-restoring", "delete-refused", "temp-missing", "reorg-not-equivalent", "state-mismatch:temp", "state-mismatch:bftheights", "restart-fails")
+C05_KEYS = ("state-mismatch:finalized", "delete-not-restoring", "delete-refused", "temp-missing", "reorg-not-equivalent", "state-mismatch:temp", "state-mismatch:bftheights", "restart-fails",
+            # what a broken delete produces first (the script stops at the first violation), when the failing step is a delete or a tie break
+            "state-mismatch:application:after-delete", "state-mismatch:application:after-tiebreak", "state-mismatch:tip:after-delete", "state-mismatch:tip:after-tiebreak",
+            "tiebreak-refused", "tiebreak-not-restoring", "panic:process:step-tiebreak", "panic:delete", "reorg-rebuild-fails",
+            # VERIF_EXPERIMENTAL=1 only: genesis block at a height > 0
+            "genesis-height:")
 
 def diff_level(ctx):
     """the revert-diff mechanics at key level (keys created / overwritten / deleted inside one commit, empty values,
@@ -37,7 +42,8 @@ def store_level(ctx):
     r = ctx.tlc("MCChainStore", cfg, workers=12, timeout=1800)
     if r["violation"]:
         raise Inconclusive("ChainStore.tla violates one of its own properties: %s" % r["outpath"])
-    tot = dict(scripts=0, steps=0, queries_compared=0, exhausted=0); ops = {}
+    tot = dict(scripts=0, steps=0, queries_compared=0, exhausted=0, raw=0, raw_deep=0, genesis_rm=0, asset_notx=0, high_genesis_steps=0); ops = {}
+    experimental = os.environ.get("VERIF_EXPERIMENTAL") == "1"
     for keep in (2, -1):
         cfg = c01.write_cfg(ctx, "store_sim%d" % keep, c01.cfg_text("ChainStore_sim", Keep=(keep if keep >= 0 else 99)))   # 99 > any height of the model: nothing is ever pruned
         r = ctx.tlc("MCChainStore", cfg, workers=1, timeout=900, simulate=30 if quick else 300, depth=18, seed=ctx.seed + keep + 3)
@@ -48,8 +54,16 @@ def store_level(ctx):
             for d in ctx.dumps(r["out"]):
                 if n < (1200 if quick else 12000):
                     fh.write(json.dumps(d) + "\n"); n += 1
-        for mc in (2, 3, 515):
-            cf = ctx.path("store_cfg.json"); json.dump(dict(maxCache=mc, keep=keep), open(cf, "w"))
+        # (block cache, genesis height, stop before the first restart).  A genesis block at height 70000 (a chain started
+        # from a snapshot; heights whose 4-byte keys differ in three bytes): outside the experimental mode only with the
+        # large cache and without restarts - Chain.PrepareCache (restart, cache window run empty) fails on the tree of
+        # 2026-09-24 while the tip is within the cache size of such a genesis block (reported as
+        # store:genesis-height:step-fails:* by VERIF_EXPERIMENTAL=1)
+        confs = [(2, 0, False), (3, 0, False), (515, 0, False), (515, 70000, True)]
+        if experimental:
+            confs += [(2, 70000, False), (3, 70000, False), (515, 70000, False)]
+        for mc, gh, stop in confs:
+            cf = ctx.path("store_cfg.json"); json.dump(dict(maxCache=mc, keep=keep, genesisHeight=gh, stopAtRestart=stop), open(cf, "w"))
             of = ctx.path("store_res.json")
             if os.path.exists(of):
                 os.remove(of)
@@ -63,13 +77,23 @@ def store_level(ctx):
                 ctx.violation(v["key"], v["what"], v.get("replay"))
             tot["scripts"] += res["scripts"]; tot["steps"] += res["steps"]; tot["queries_compared"] += res["queries_compared"]
             tot["exhausted"] += res["steps_with_cache_window_exhausted"]
+            tot["raw"] += res.get("raw_key_dumps_compared_after_remove", 0); tot["raw_deep"] += res.get("raw_key_dumps_compared_two_or_more_removes_deep", 0)
+            tot["genesis_rm"] += res.get("genesis_removals_attempted", 0); tot["asset_notx"] += res.get("removed_blocks_with_asset_and_no_transaction", 0)
+            if gh:
+                tot["high_genesis_steps"] += res["steps"]
             for k, v in res["ops"].items():
                 ops[k] = ops.get(k, 0) + v
     log("[store] scripts=%d steps=%d ops=%s queries=%d cache-window-exhausted=%d" % (tot["scripts"], tot["steps"], ops, tot["queries_compared"], tot["exhausted"]))
+    log("[store] raw key dumps compared after a remove: %d (%d at least two removes deep), removed asset blocks without transactions: %d, genesis removals attempted: %d, steps with the genesis block at height 70000: %d" % (
+        tot["raw"], tot["raw_deep"], tot["asset_notx"], tot["genesis_rm"], tot["high_genesis_steps"]))
     if not ctx.violations and (tot["queries_compared"] < 100000 or tot["exhausted"] == 0 or ops.get("remove", 0) < 500):
         raise Inconclusive("store scripts did not exercise enough (queries / removals beyond the cache window): vacuous")
+    if not ctx.violations and (tot["raw"] < 500 or tot["raw_deep"] < 50 or tot["asset_notx"] < 20 or tot["genesis_rm"] < 20 or tot["high_genesis_steps"] < 1000):
+        raise Inconclusive("store scripts did not exercise enough (raw key dumps after removes / asset blocks without transactions / genesis removals / high genesis): vacuous")
     return dict(store_scripts=tot["scripts"], store_steps=tot["steps"], store_ops=ops, store_queries_compared=tot["queries_compared"],
-                store_steps_with_cache_window_exhausted=tot["exhausted"])
+                store_steps_with_cache_window_exhausted=tot["exhausted"], store_raw_key_dumps_compared_after_remove=tot["raw"],
+                store_raw_key_dumps_two_or_more_removes_deep=tot["raw_deep"], store_removed_asset_blocks_without_transactions=tot["asset_notx"],
+                store_genesis_removals_attempted=tot["genesis_rm"], store_steps_with_genesis_at_height_70000=tot["high_genesis_steps"])
 
 def extra(ctx):
     res = diff_level(ctx)
